@@ -1,7 +1,8 @@
 (* C17 — function entry/exit probes fire once per call on every normal path.  Statements only. *)
+From Coq Require Import String.
 From Coq Require Import List Arith NArith ZArith Bool.
 Import ListNotations.
-From Orca Require Import Util Flat Lowering CheckLow Tree TreeLower WasmP SemProofs EvalP Sim SimFn Peel SimFnReal CheckSem KnownSem SelfCase Commute Flatten.
+From Orca Require Import Util Flat Lowering CheckLow Tree TreeLower WasmP SemProofs EvalP Sim SimFn Peel SimFnReal CheckSem KnownSem SelfCase Commute Flatten GenAddInstr GenAddInstrProofs.
 
 (* The specification [exec_fn .. true] fires the entry probes before any original instruction (they are part of
    the before-probes of instruction 0), and the exit probes X once when the body falls off its end, once when it
@@ -47,6 +48,17 @@ Theorem C17_exit_before_every_exit_instruction :
   forall F X i o, is_exit_op o = true -> lower F X (IPlain i o) = ins (bef F i) ++ ins X ++ [IPlain i o] ++ ins (aft F i).
 Proof. intros F X i o H. cbn [lower]. rewrite H. reflexivity. Qed.
 Print Assumptions C17_exit_before_every_exit_instruction.
+
+(* [is_exit_op] is the operator list of resolve_function_exit as the translator reads it from /repo/src/ir/module/mod.rs on
+   every check (return, return_call, return_call_indirect, return_call_ref, unreachable, throw, rethrow, throw_ref,
+   resume_throw), and each listed operator has a constructor of its own in the model *)
+Theorem C17_exit_instruction_list_is_the_model :
+  (forall o n, In n (fop_names o) -> mem n gen_exit_ops = is_exit_op o) /\
+  forallb (fun n => existsb (fun o => mem n (fop_names o)) representative_ops) gen_exit_ops = true.
+Proof.
+  split; [intros o n H; exact (proj2 (proj2 (classification_is_the_source_lists o n H))) | vm_compute; reflexivity].
+Qed.
+Print Assumptions C17_exit_instruction_list_is_the_model.
 
 (* non-vacuity: a function with a return at depth 2, a branch to the function label from depth 1 and a
    fall-through path; entry and exit probes fire exactly once on each of the three paths *)
